@@ -280,9 +280,11 @@ def timerFile (path : String) : IO Unit := do
         | [kw, c, txt] =>
           if toS kw == "line" then
             let cid := natOf c
-            let ws := splitAsciiWhitespace (unesc txt)
-            match ws with
-            | verb :: rest =>
+            let (verb, rest) : Str × List Str := match Message.parse (unesc txt) with
+              | .ok m => (m.command, m.params)
+              | .error _ => ([], [])
+            match some verb with
+            | some verb =>
               let v := toS (asciiUpper verb)
               if v == "NICK" then nicked := cid :: nicked
               else if v == "USER" then
@@ -293,11 +295,11 @@ def timerFile (path : String) : IO Unit := do
               else if v == "PING" then
                 for (c', st) in sts do
                   if c' == cid then
-                    let tok := match rest with
-                      | t :: _ => if t.head? == some ':' then t.drop 1 else t
-                      | [] => []
-                    for o in (Timer.tStep tcfg st (.pingCmd tok)).2 do IO.println s!"tev {c'} {toS o.render}"
-            | [] => pure ()
+                    match rest with
+                    | tok :: _ =>
+                      for o in (Timer.tStep tcfg st (.pingCmd tok)).2 do IO.println s!"tev {c'} {toS o.render}"
+                    | [] => pure ()     -- PING without parameter: 461, no PONG
+            | none => pure ()
         | _ => pure ()
         IO.println "endop"
       IO.println "endseq"
